@@ -8,3 +8,6 @@ pub use linear_model::*;
 pub use linearizer::*;
 pub use standard_linear_model::*;
 pub use standardizer::*;
+
+#[cfg(rooc_verif)]
+pub use bounds::verif_hooks as bounds_verif_hooks;
